@@ -41,6 +41,7 @@ SECTION_DEPS = {
     "forbidden": ["C05", "C12", "C14"], "libflags": ["C04", "C05", "C15"], "details": ["C15", "C16"],
     "cause": ["C17"],
     "cause_fields": ["C17"],
+    "registry_types": ["C02", "C05"],
     "channel_consts": ["C06", "C07", "C08", "C10"],
     "misc_consts": ["C01", "C09", "C10", "C11", "C12", "C18"],
     "orderings": ["C01", "C02", "C03", "C04", "C06", "C07", "C08", "C09", "C10", "C11", "C15", "C18"],
